@@ -91,7 +91,14 @@ impl RefTable {
 
         //table in ram may not reach end of reftable in disk
         let (new_size, new_off) = if ram_size + entry_size < clusters * cluster_size {
-            (ram_size + entry_size, self.offset)
+            // grow by a whole block: the table is flushed block by block,
+            // straight from this buffer, so its size has to stay a multiple
+            // of the block size (a flush of the last block would read
+            // beyond the buffer and put that on disk as table entries)
+            (
+                ((ram_size + entry_size).div_ceil(bs) * bs).min(clusters * cluster_size),
+                self.offset,
+            )
         } else {
             (clusters * cluster_size + bs, None)
         };
